@@ -88,6 +88,7 @@ func (p *c18) Bounds(tier string) map[string]interface{} {
 }
 
 func (p *c18) Cases(tier string, emit func(interface{})) {
+	emit(c18Case{Part: "accessor"})
 	d := 3
 	if tier == "thorough" {
 		d = 5
@@ -348,6 +349,9 @@ func c18FindAll(c c18Case, inst *c18Inst, site, desc string) []eng.StepViol {
 func (p *c18) Run(raw json.RawMessage) eng.Result {
 	var c c18Case
 	decode(raw, &c)
+	if c.Part == "accessor" {
+		return c18RunAccessor()
+	}
 	var res eng.Result
 	m := model.SharedSchema(c.Schema)
 	if c.Part == "history" {
